@@ -174,7 +174,9 @@ def r2_tables(ctx: Ctx) -> None:
     vo = repo.func("compiler:CodeGenerator.visit_Operand")
     ctx.check("operators[node.op]" in ast.unparse(vo.node), "cmp:visitor", "compiler:CodeGenerator.visit_Operand", "operator lookup", "visit_Operand no longer emits operators[node.op]", vo.loc())
     ca = repo.func("nodes:Compare.as_const")
-    ctx.check("_cmpop_to_func[op.op]" in ast.unparse(ca.node), "cmp:fold", "nodes:Compare.as_const", "fold lookup", "Compare.as_const no longer folds through _cmpop_to_func[op.op]", ca.loc())
+    cmp_loops = [l for l in ast.walk(ca.node) if isinstance(l, ast.For) and ast.unparse(l.iter) == "self.ops" and isinstance(l.target, ast.Name)]
+    lv = cmp_loops[0].target.id if cmp_loops else "op"  # type: ignore[attr-defined]
+    ctx.check(len(cmp_loops) == 1 and f"_cmpop_to_func[{lv}.op]" in ast.unparse(cmp_loops[0]), "cmp:fold", "nodes:Compare.as_const", "fold lookup", "Compare.as_const no longer folds through _cmpop_to_func[op.op]", ca.loc())
     # short circuit folding must be and/or
     for cname, kw in (("And", ast.And), ("Or", ast.Or)):
         fi = repo.func(f"nodes:{cname}.as_const")
